@@ -18,8 +18,8 @@ type sigState struct {
 }
 
 type MonSignatures struct {
-	st       map[*SimNode]*sigState
-	ownSeen  int
+	st      map[*SimNode]*sigState
+	ownSeen int
 }
 
 func NewMonSignatures() *MonSignatures { return &MonSignatures{st: map[*SimNode]*sigState{}} }
@@ -382,9 +382,9 @@ func minInt(a, b int) int {
 
 type MonFrames struct {
 	frames map[int]*hg.Frame
-	canon map[int]string
-	from  map[int]int
-	seen  map[[2]int]bool
+	canon  map[int]string
+	from   map[int]int
+	seen   map[[2]int]bool
 }
 
 func NewMonFrames() *MonFrames {
